@@ -68,6 +68,23 @@ UnparseTok(t) == IF t.op >= 1 /\ t.op <= 75 THEN <<t.op>> \o t.data
                  ELSE <<t.op>>
 Unparse(toks) == Concat([k \in 1..Len(toks) |-> UnparseTok(toks[k])])
 
+\* ---- the "parts" view (bscript.DecodeParts / EncodeParts): a push is its payload, any other
+\* ---- opcode the one-byte string holding it
+IsDataPush(op) == op >= 1 /\ op <= OP_PUSHDATA4
+PartsOf(toks) == [k \in 1..Len(toks) |-> IF IsDataPush(toks[k].op) THEN toks[k].data ELSE <<toks[k].op>>]
+EncodeParts(items) == Concat([k \in 1..Len(items) |-> PushPrefix(Len(items[k])) \o items[k]])
+HasOp(toks, op) == \E k \in 1..Len(toks) : ~toks[k].bad /\ toks[k].op = op
+StartsAsData(s) == (Len(s) >= 1 /\ s[1] = OP_RETURN) \/ (Len(s) >= 2 /\ s[1] = OP_0 /\ s[2] = OP_RETURN)
+\* scripts whose assembly rendering must convert back: non-empty, non-data, only non-push opcodes
+\* and minimally prefixed pushes of two or more bytes
+AsmSafe(s) == /\ s # <<>> /\ WellFormed(s) /\ ~StartsAsData(s)
+              /\ LET t == Tokenize(s) IN
+                 \A k \in 1..Len(t) : ~IsDataPush(t[k].op) \/
+                                       (Len(t[k].data) >= 2 /\ UnparseTok(t[k]) = PushPrefix(Len(t[k].data)) \o t[k].data)
+
+\* a push that uses the shortest of the four length forms for its payload
+MinimalPushLenForm(t) == IsDataPush(t.op) => UnparseTok(t) = PushPrefix(Len(t.data)) \o t.data
+
 IsPushOp(op) == op <= OP_16
 PushOnly(toks) == \A k \in 1..Len(toks) : IsPushOp(toks[k].op)
 
